@@ -90,9 +90,10 @@ def topologies():
         {"kind": "heat_consumer", "name": "hc1", "from_junction": "f1", "to_junction": "r1", "qext_w": 20000.0, "controlled_mdot_kg_per_s": 0.4, "in_service": True},
         {"kind": "heat_consumer", "name": "hc2", "from_junction": "f2", "to_junction": "r2", "controlled_mdot_kg_per_s": 0.5, "deltat_k": 20.0, "in_service": True},
         {"kind": "flow_control", "name": "fc2", "from_junction": "f2", "to_junction": "r2", "controlled_mdot_kg_per_s": 0.2, "control_active": True, "in_service": True},
-        {"kind": "valve", "name": "vb", "junction": "f1", "element": "r1", "et": "ju", "inner_diameter_mm": 20.0, "opened": False, "loss_coefficient": 50.0}]},
+        {"kind": "valve", "name": "vb", "junction": "f1", "element": "r1", "et": "ju", "inner_diameter_mm": 20.0, "opened": False, "loss_coefficient": 50.0},
+        {"kind": "circ_pump_pressure", "name": "cp1", "return_junction": "r2", "flow_junction": "f2", "p_flow_bar": 5.5, "plift_bar": 1.5, "t_flow_k": 355.0, "in_service": False}]},
         [("pf1", "in_service"), ("pf2", "in_service"), ("pr1", "in_service"), ("pr2", "in_service"), ("hc1", "in_service"),
-         ("hc2", "in_service"), ("fc2", "in_service"), ("fc2", "control_active"), ("vb", "opened"), ("cp0", "in_service")])
+         ("hc2", "in_service"), ("fc2", "in_service"), ("fc2", "control_active"), ("vb", "opened"), ("cp0", "in_service"), ("cp1", "in_service")])
     # T5 two grids (one may be off) and an island
     T["island"] = ({"fluid": "water", "junctions": [J("a"), J("b"), J("c"), J("x"), J("y")], "elements": [
         {"kind": "ext_grid", "name": "eg0", "junction": "a", "p_bar": 5.0, "t_k": 300.0, "in_service": True},
@@ -175,6 +176,9 @@ def judge(spec, mode, obs, label):
         return False
     if outcome != "ok":
         obs.count("pattern_outcome_" + outcome)
+        if outcome.startswith("error:") and outcome.split(":")[1] in ("IndexError", "KeyError", "ValueError", "TypeError", "ZeroDivisionError", "AttributeError"):
+            obs.violate("pipeflow_crashes_on_outage_pattern", "a supplied part exists (%d junctions) but pipeflow raised %s: %s"
+                        % (len(reached), outcome.split(":")[1], str(exc)[:120]), **desc)
         return False
     mixed = len(reached) < len(spec["junctions"]) or any(e.get("in_service") is False or e.get("opened") is False for e in spec["elements"])
     if mixed:
